@@ -79,6 +79,7 @@ type PodDef struct {
 	// Expect is what the property text prescribes for this pod given the static configuration.
 	Expect     []ExpNet
 	ExpectFail bool   // the annotation names a network that is not configured: ADD must fail without invoking anything
+	Hostile    bool   // C18: carries hostile annotations or ports
 	AnnForm    string // "none", "list", "json"
 	Sandboxes  int    // how many sandboxes kubelet may create for it during the run
 }
@@ -550,25 +551,36 @@ func genConfig(c *core.Choices, prop string) *Config {
 	cfg.ScriptSeed = uint64(c.Choose(1 << 30))
 	cfg.Containerd = c.Prob(1, 2)
 	genNetworks(c, cfg)
+	if prop == "C18" {
+		hostileConfFiles(c, cfg)
+	}
 	cfg.configFiles(c)
-	withPorts := prop == "C14" || prop == "C17"
+	withPorts := prop == "C14" || prop == "C17" || prop == "C19" || prop == "C18"
 	np := c.Range(1, 6)
 	for i := 0; i < np; i++ {
-		cfg.Pods = append(cfg.Pods, genPod(c, cfg, i, withPorts))
+		p := genPod(c, cfg, i, withPorts)
+		if prop == "C18" && i > 0 && c.Prob(1, 2) {
+			hostilePod(c, p) // pod 0 stays ordinary: its requests are the follow-up that must still be answered
+		}
+		cfg.Pods = append(cfg.Pods, p)
 	}
 	rates := []int{0, 0, 150, 350, 600}
+	if prop == "C19" || prop == "C18" {
+		cfg.AddFailRate = []int{0, 100, 250}[c.Choose(3)]
+		cfg.DelFailRate = []int{0, 100, 250}[c.Choose(3)]
+	}
 	if prop == "C12" {
 		cfg.AddFailRate = rates[c.Choose(len(rates))]
 		cfg.DelFailRate = rates[c.Choose(len(rates))]
 	}
-	if prop == "C14" || prop == "C17" {
+	if prop == "C14" || prop == "C17" || prop == "C19" || prop == "C18" {
 		genPriorNAT(c, cfg)
 		for i, n := 0, c.Choose(3); i < n; i++ {
 			port := []int{30000, 30001, 32768, 32770, 8000, 8011}[c.Choose(6)]
 			cfg.ForeignPorts = append(cfg.ForeignPorts, fmt.Sprintf("%s/%d", pick(c, []string{"tcp", "udp"}), port))
 		}
 	}
-	if prop == "C17" {
+	if prop == "C17" || prop == "C19" || prop == "C18" {
 		genLeftovers(c, cfg)
 	}
 	var forms []string
